@@ -77,12 +77,30 @@ def build_pairs(s3, entries):
     from rnapolis.common import BasePair, LeontisWesthof, Residue, ResidueAuth, ResidueLabel, Saenger
 
     out = []
+    moved = {}
+
+    def moved_copy():
+        # the same molecule as another Structure3D object (other coordinates, as another model or a re-read file has)
+        if "s3" not in moved:
+            import numpy as np
+            from rnaverif import gen3d
+
+            moved["s3"] = gen3d.rebuild(s3, point_fn=lambda xyz, ri, k: xyz + np.array([7.0, -3.0, 2.0]))
+        return moved["s3"]
+
     for e in entries:
         def res(x):
+            naming = e.get("naming")
             if isinstance(x, list):
+                if naming == "residue3d-of-another-object":
+                    from rnapolis.tertiary import Residue3D
+
+                    return Residue3D(None, ResidueAuth("zz", 9000 + x[1], None, "G"), 1, "G", ())
                 return Residue(None, ResidueAuth("zz", 9000 + x[1], None, "G"))
             r = s3.residues[x]
-            naming = e.get("naming")
+            # entries that ARE 3D residue objects (the DSSR importer builds such lists) of another structure object
+            if naming == "residue3d-of-another-object":
+                return moved_copy().residues[x]
             # how a pair list names a residue of the structure: both identities as the structure has them (own
             # annotation), one of them only (PDB-born lists, label-only tools), or both with a label the structure
             # does not have - a list made on another form of the same molecule (mmCIF annotation applied to the
@@ -457,7 +475,7 @@ def st_cases(files):
         case = {"file": fn, "entries": [entries[k] for k in order], "find_gaps": draw(st.booleans()), "via_adapter": draw(st.booleans()),
                 "saenger": draw(st.booleans())}
         # one naming convention per list, as a list written by one tool has
-        case["naming"] = draw(st.sampled_from([None, None, ["auth-only"], ["label-only"], ["foreign-label"]]))
+        case["naming"] = draw(st.sampled_from([None, None, ["auth-only"], ["label-only"], ["foreign-label"], ["residue3d-of-another-object"]]))
         if draw(st.booleans()):
             case["relabel"] = {
                 "cuts": draw(st.lists(st.integers(1, 400), max_size=3)),
